@@ -92,8 +92,20 @@ def binding_inits(hfn):
             for a in e['arms']:
                 for n in pat_bindings(a['pat']):
                     res.setdefault(n, []).append(e['scrut'])
-        elif k == 'closure':
-            pass
+        elif k in ('mcall', 'call'):
+            # closure passed to an adapter (`iter.try_for_each(|x| ..)`, `opt.map(|x| ..)`): its
+            # parameters take their values from the receiver / the other arguments
+            args = ([e['recv']] if k == 'mcall' else []) + list(e['args'])
+            for a in args:
+                a2 = a
+                while isinstance(a2, dict) and a2.get('k') == 'addr':
+                    a2 = a2['e']
+                if isinstance(a2, dict) and a2.get('k') == 'closure':
+                    for p in a2.get('params', []):
+                        for n in pat_bindings(p):
+                            for other in args:
+                                if other is not a:
+                                    res.setdefault(n, []).append(other)
     walk(hfn['body'], visit)
     return res
 
